@@ -1,5 +1,6 @@
 """C15 — Requests are routed to the named virtual host and hosts stay isolated."""
 import itertools
+import re
 
 from kv import Case, xn, xb, xl, xlist, xopt, xbool, xparse, xtext
 import pipe
@@ -147,7 +148,8 @@ RULE = ("(a) hosts.lookup: direct calls of HostCollection::builder().insert/.def
         "reference resolver (oracle; every query kind now has a specified answer): collections of 1-4 hosts x default none/any position (and a "
         "second default: builder panic) x alternative names incl. overlapping ones x a menu of ~45 requested names per collection (every configured "
         "name exact, with trailing dot(s), upper case, with port, unknown, localhost / 127.0.0.1 / [::1] / ::1 with and without port and near misses, "
-        "empty, absent, non-ASCII, TAB) as SNI, as Host header, both, and two Host headers. thorough: exhaustive over the reduced universe (names "
+        "empty, absent, non-ASCII, TAB) as SNI, as Host header, both, two Host headers, and as the authority of the request's URI (with and without SNI / text or non-text Host "
+        "header beside it). thorough: exhaustive over the reduced universe (names "
         "a/b/c.test, <= 2 alternative names, 1-3 hosts, every default position) + sampled 4-host collections; quick: sampled. "
         "(b) hosts.wire: histories of 6-14 requests through kvarn::handle_connection over loopback connections of three kinds — plain TCP with "
         "HTTP/1.1 or HTTP/1.0, TLS with HTTP/1.1 (ALPN http/1.1), TLS with HTTP/2 (ALPN h2); rustls / h2 clients in the harness — against 2-4 hosts "
@@ -201,6 +203,9 @@ LOOP = [b"localhost", b"localhost:8080", b"localhost:", b"localhost.", b"LOCALHO
 ODD = [b"", b".", b"..", b":", b":80", b"default", b"unknown.test", b"\xe4.test", b"a\ttest", b"a.test\xff"]
 
 
+AUTH_SAFE = re.compile(rb"^([A-Za-z0-9.-]+|\[::1\])(:[0-9]*)?$")
+
+
 def x_ops(ops):
     return xlist([xl(xbool(d), xb(n), xlist([xb(a) for a in alts])) for d, n, alts in ops])
 
@@ -251,6 +256,11 @@ def queries(ops, rng, full):
             qs.append(q_req(6, None, [n]))
         if full or rng.random() < 0.1:
             qs.append(q_req(0, None, [n, rng.choice(configured)]))    # first Host header wins
+        if AUTH_SAFE.match(n) and (full or rng.random() < 0.25):
+            # the URI's authority stands in for a missing (or non-text) Host header; the SNI and a text header win over it
+            f = rng.random()
+            sni, hh = (None, []) if f < 0.6 else (None, [b"\xe4.test"]) if f < 0.7 else (None, [rng.choice(configured)]) if f < 0.85 else (rng.choice(configured), [])
+            qs.append(xl(xn(7), xopt(None if sni is None else xb(sni)), xlist([xb(h) for h in hh]), xb(n)))
     for n in configured + [b"default", b"", b"unknown.test", b"a.test."]:
         if utf8(n):
             qs.append(xl(xn(1), xb(n)))
@@ -622,7 +632,7 @@ def spec_ok(c, i, s):
         if b == ("L", []):
             continue             # no specified answer for this query kind
         kind, want = b[1][0][1], b[1][1]
-        if kind in (0, 1, 2, 3, 4):
+        if kind in (0, 1, 2, 3, 4, 7):
             # Ok (option (id, name)): the id
             got = a[1][1] if a[0] == "L" and len(a[1]) == 2 and a[1][0] == ("N", 0) else None
             if got is None:
